@@ -51,24 +51,27 @@ FRAGS_ABS = {
     "NodeInlF": "fragment NodeInlF on Node { id ... on Bot { version } }",
     "UserDeepF": "fragment UserDeepF on User { id bestFriend { ...UserF } pet { barks } }",
     "NestF": "fragment NestF on User { ...UserF color }",
+    "ThingUF": "fragment ThingUF on Thing { ... on User { ...UserF } ... on Bot { ...BotF } }",
+    "NodeInl2F": "fragment NodeInl2F on Node { id ... on User { ...UserF } }",
+    "NamedOnNodeF": "fragment NamedOnNodeF on Node { id }",
 }
 
 # selection items usable inside a selection set whose declared type is abstract (Node / Named / Thing) or User
 ITEMS_NODE = [
     "id", "nid: id", "__typename", "... on User { name age }", "... on User { uname: name color }", "... on Bot { model }",
     "... on Dog { barks }", "... on Named { name }", "... on Node { id }", "...NodeF", "...NamedF", "...UserF", "...BotF",
-    "...ThingF", "...NodeInlF", "... on User { ...UserF }", "... on User { bestFriend { id } }", "... { id }", "kind: __typename",
+    "...ThingF", "...NodeInlF", "... on User { ...UserF }", "... on User { bestFriend { id } }", "... { id }", "kind: __typename", "...NodeInl2F", "...ThingUF",
 ]
 ITEMS_THING = [
     "__typename", "... on User { name age }", "... on Bot { model }", "... on Dog { barks }", "... on Named { name }",
     "... on Node { id }", "...NodeF", "...UserF", "...ThingF", "...DogF", "... on User { id fav { __typename } }",
-    "... on Dog { owner { name } }", "kind: __typename",
+    "... on Dog { owner { name } }", "kind: __typename", "...ThingUF", "...NodeInl2F",
 ]
 ITEMS_USER = [
     "id", "name", "n2: name", "age", "score", "active", "color", "colors", "__typename", "friends { id }", "bestFriend { name }",
     "pet { barks }", "related { id }", "related { ... on Bot { model } }", "fav { ... on Dog { barks } }", "...UserF", "...NodeF",
     "...NamedF", "...UserDeepF", "...NestF", "... on User { age }", "... on Node { id }", "... on Named { name }", "tn: __typename",
-    "pet { kind: __typename barks }", "related { kind: __typename }",
+    "pet { kind: __typename barks }", "related { kind: __typename }", "...NodeInl2F", "fav { ...ThingUF }",
 ]
 DIRECTIVES = ["", "@include(if: $v)", "@skip(if: $v)", "@include(if: true)", "@skip(if: $w)"]
 
